@@ -17,7 +17,7 @@
    validation loop resumes where an earlier failed call stopped). *)
 From stdpp Require Import gmap list.
 From Coq Require Import NArith ZArith.
-Require Import DS.Collections.
+Require Import DS.Collections DS.CollectionsScripts.
 
 Inductive look (A : Type) := Found (a : A) | WrongKind | Missing.
 Arguments Found {A} a. Arguments WrongKind {A}. Arguments Missing {A}.
@@ -224,14 +224,19 @@ Definition concat_asis (args : list str) (s : mstate) : cres * mstate :=
   end.
 
 (* ---- what the correspondence run executes ---------------------------------------------------- *)
-(* natives: the model M;  array_concat: as-is;  the other script commands: S *)
+(* natives: the model M;  loop-free scripts: their translation (CollectionsScripts.v);
+   array_concat: as-is;  the other script commands with loops: S *)
 Definition step_h (c : cmd) (args : list str) (s : mstate) : outcome (cres * mstate) :=
   match step_m rnd ord c args s with
   | Some o => o
-  | None => match c with
-            | CArrayConcat => Done (concat_asis args s)
-            | _ => Done (step_s c args s)
-            end
+  | None =>
+    match step_script c args s with          (* the four loop-free scripts, translated by hand *)
+    | Some o => o
+    | None => match c with
+              | CArrayConcat => Done (concat_asis args s)
+              | _ => Done (step_s c args s)
+              end
+    end
   end.
 
 End Spec.
